@@ -100,6 +100,31 @@ def judgeNode (c : Cfg) (i : Nat) (log : List Rec) (mustBeActive : Bool) : List 
               bad := (if claimFailed then "after-faults-tokens-diverged:failed-claim" else "after-faults-tokens-diverged") :: bad
           | _, _ => pure ()
       | none => pure ()
+  -- (b'') a state change the store rejected is not forgotten (full Lifecycler: changeState remembers the new state
+  -- before writing): the next accepted heartbeat publishes the state the lifecycler was asked to take
+  if c.kind == .LC then
+    for p in [0:n] do
+      let r := arr[p]!
+      if r.idx == i && r.ev == "cs" && (r.fault == "fb" || r.fault == "fc") then
+        let mut before : Option String := none
+        for k in [0:p] do
+          if arr[k]!.idx == i && arr[k]!.loc != "dead" then before := some (localState arr[k]!.loc)
+        match before.bind State.ofCode, State.ofCode r.arg with
+        | some s0, some s1 =>
+          if legalEdge s0 s1 then
+            let mut q := p + 1
+            let mut stop := false
+            while q < n && !stop do
+              let rq := arr[q]!
+              if rq.ev == "wipe" || (rq.idx == i && (rq.ev == "init" || rq.ev == "crash" || rq.ev == "cs" || rq.ev == "unreg" || (rq.ev == "hb" && rq.committed))) then stop := true
+              else q := q + 1
+            if q < n then
+              let rq := arr[q]!
+              if rq.idx == i && rq.ev == "hb" && rq.committed then
+                match entryOf rq.after c.id with
+                | some e => if e.state != s1 then bad := s!"state-lost-after-rejected-write:{r.arg}" :: bad
+                | none => pure ()
+        | _, _ => pure ()
   -- (c) the tokens file never becomes unparsable
   let mut lastFile := ""
   for p in [0:n] do
@@ -119,6 +144,23 @@ def judgeNode (c : Cfg) (i : Nat) (log : List Rec) (mustBeActive : Bool) : List 
       if (fin.getD []).any (fun o => o.id != c.id && o.tokens.any (e.tokens.contains ·)) then bad := "final-collision" :: bad
   return bad.eraseDups
 
+/-- hand-over: once `to` has claimed the tokens of `frm`, no later ring version lists a token under both -/
+def judgeClaims (nodes : Array OracleC08.Node) (log : List Rec) : List String := Id.run do
+  let arr := log.toArray
+  let n := arr.size
+  let mut bad : List String := []
+  for p in [0:n] do
+    let r := arr[p]!
+    if r.ev == "claim" && r.committed then
+      match nodes[r.idx]? with
+      | some nd =>
+        for k in [p:n] do
+          match entryOf arr[k]!.after r.arg, entryOf arr[k]!.after nd.cfg.id with
+          | some a, some b => if a.tokens.any (b.tokens.contains ·) then bad := "claimed-tokens-owned-twice" :: bad
+          | _, _ => pure ()
+      | none => pure ()
+  return bad.eraseDups
+
 def handleRun (f : List String) : String × String × String :=
   match f with
   | [name, cfgs, files, init, steps, expect] =>
@@ -132,8 +174,10 @@ def handleRun (f : List String) : String × String × String :=
         match s.nodes[i]? with
         | some nd => judgeNode nd.cfg i log (exp.contains i)
         | none => []
+      let bad := bad ++ judgeClaims s.nodes log
       let judge := if bad.isEmpty then "-" else ",".intercalate bad
       let scen := match name.splitOn "/" with
+        | [k, sc, _] => s!"{k} scen={sc}"
         | [k, sc, _, kk] => s!"{k} scen={(sc.splitOn "-").headD sc} cfg={((sc.splitOn "-").drop 1).headD "-"} at={if kk == "k0cb" then "clean" else if kk.endsWith "cb" then "before" else "after"}"
         | k :: _ => k
         | [] => "?"
